@@ -250,6 +250,7 @@ def _wrun(chunk):
     judged on the run that showed it, not on a re-run)."""
     from bind import trace_packet as tp
     out = []
+    per_kind = {}
     sc = _W["scratch"]
     for case in chunk:
         d = _W["univ"][case["d"] - 1]
@@ -261,7 +262,10 @@ def _wrun(chunk):
                 out.append({"d": case["d"], "raw": case["raw"], "start": case["start"], "gen": gen,
                             "clauses": ["harness"], "detail": traceback.format_exc()[-1500:], "rec": None, "extra": {}})
                 continue
-            if mm:
+            kind = tuple(sorted(c for c, _ in mm))
+            per_kind[kind] = per_kind.get(kind, 0) + 1
+            if mm and per_kind[kind] <= 25:       # (a chunk hands back at most 25 differing executions of each KIND - the set of
+                                                  #  differing clauses -: a library that differs everywhere must not fill the memory)
                 rec, extra = tp.make_record(d, case["raw"], case["start"], gen, ro, po, _W["opts"].get("c01", True))
                 out.append({"d": case["d"], "raw": case["raw"], "start": case["start"], "gen": gen,
                             "clauses": [c for c, _ in mm], "detail": "; ".join("%s: %s" % (c, t[:300]) for c, t in mm[:3]),
